@@ -47,7 +47,7 @@ From RZ.proofs Require Import ExprCorrect.
    states it); here its instance for the fragment, restated so that C03 has its own obligation *)
 Theorem C03_casts_correct_repaired :
   forall (cfg : config) (rw : regwidth) (IM : string -> bool) (E : cenv) (csub : csubs) xi V e st,
-  cfg_fx cfg = all_fixes -> cfg_params cfg = [] -> macs_std (cfg_macros cfg) -> subs_ext (cfg_subs cfg) -> csub_ext csub ->
+  cfg_fx cfg = all_fixes -> cfg_params cfg = [] -> macs_std (cfg_macros cfg) -> subs_ext (cfg_subs cfg) -> csub_ext csub -> xi_ok xi ->
   lst_ok IM V st -> pfrag rw IM V e ->
   exists pv st', lower_expr cfg e st = OK (IPure pv, st') /\ st_ext st st' /\ lst_ok IM V st' /\
     forall R rem, regs_le (st_regs st') R -> norem rem ->
